@@ -2,6 +2,7 @@ package main
 
 import (
 	"context"
+	goerr "errors"
 	"fmt"
 	"io"
 	"reflect"
@@ -16,7 +17,31 @@ import (
 	"github.com/cockroachdb/redact"
 	gogorpc "github.com/gogo/googleapis/google/rpc"
 	"github.com/gogo/protobuf/types"
+	pkgerr "github.com/pkg/errors"
+
+	"github.com/cockroachdb/errors/report"
 )
+
+// reportSx: the structured content of BuildSentryReport
+func reportSx(e error) Sx {
+	ev, extras := report.BuildSentryReport(e)
+	if ev == nil {
+		return Sym("none")
+	}
+	exs := L()
+	for _, ex := range ev.Exception {
+		fr := Sym("none")
+		if ex.Stacktrace != nil {
+			fr = L()
+			for _, f := range ex.Stacktrace.Frames {
+				fr.List = append(fr.List, L(A(f.Module), A(f.Function), A(f.AbsPath), N(int64(f.Lineno))))
+			}
+		}
+		exs.List = append(exs.List, L(A(ex.Type), A(ex.Value), A(ex.Module), fr))
+	}
+	tl, _ := extras["error types"].(string)
+	return L(A(ev.Message), exs, A(tl), N(int64(len(extras))))
+}
 
 var ioEOF = io.EOF
 var ioUnexpectedEOF = io.ErrUnexpectedEOF
@@ -185,7 +210,7 @@ func (r *Ref) Build(c *BuildCtx, e error) error {
 // Obs is one requested observation; Sx() is its request syntax.
 type Obs struct {
 	Name   string
-	Refs   []int    // is, isany, hastype
+	Refs   []int     // is, isany, hastype
 	Target [2]string // as: kind, name
 	Procs  [][]string
 	Sub    []Obs // hop
@@ -193,14 +218,14 @@ type Obs struct {
 
 func (o Obs) Sx() Sx {
 	switch o.Name {
-	case "is", "hastype", "isany":
+	case "is", "hastype", "isany", "std-is":
 		out := []Sx{Sym(o.Name)}
 		for _, r := range o.Refs {
 			out = append(out, N(int64(r)))
 		}
 		return L(out...)
-	case "as":
-		return L(Sym("as"), L(Sym(o.Target[0]), A(o.Target[1])))
+	case "as", "std-as":
+		return L(Sym(o.Name), L(Sym(o.Target[0]), A(o.Target[1])))
 	case "hop":
 		out := []Sx{Sym("hop"), procsSx(o.Procs)}
 		for _, s := range o.Sub {
@@ -353,6 +378,30 @@ func observe(o Obs, e error, refs []error) (res Sx) {
 		v = onErr(func() Sx { return A(string(redact.Sprint(e))) })
 	case "red+v":
 		v = onErr(func() Sx { return A(string(redact.Sprintf("%+v", e))) })
+	case "stacks":
+		v = onErr(func() Sx { return stacksSx(e) })
+	case "source":
+		v = onErr(func() Sx { return sourceSx(e) })
+	case "report":
+		v = reportSx(e)
+	case "std-is":
+		v = B(goerr.Is(e, refs[o.Refs[0]]))
+	case "std-as":
+		if e == nil {
+			v = Sym("notfound")
+		} else {
+			v = stdAs(e, o.Target[1])
+		}
+	case "std-unwrap":
+		v = onErr(func() Sx {
+			u := goerr.Unwrap(e)
+			if u == nil {
+				return Sym("none")
+			}
+			return L(A(goFullName(u)), A(u.Error()))
+		})
+	case "pkg-cause":
+		v = onErr(func() Sx { r := pkgerr.Cause(e); return L(A(goFullName(r)), A(r.Error())) })
 	case "is":
 		v = B(errors.Is(e, refs[o.Refs[0]]))
 	case "isany":
